@@ -676,10 +676,14 @@ class Gen:
         nodes = self.outputs + self.leaves
         if not nodes:
             return
+        # `default` statements are not build statements and are outside property C17: they are written with literal, escape-free
+        # names only, so that the way llbuild expands (or does not expand) their paths is never part of a verdict.
+        import re as _re
+        nodes = [n for n in nodes if _re.match(rb"^[A-Za-z0-9_./-]+$", n) and not n.startswith(b"./") and b"//" not in n and b"/../" not in n]
+        if not nodes:
+            return
         picks = self.rng.sample(nodes, min(len(nodes), self.rng.choice([1, 1, 2])))
-        pre = bytearray()
-        ts = [self.spell(pre, scope, p)[0] for p in picks]
-        out += pre
+        ts = list(picks)
         out += b"default " + b" ".join(ts) + self.trail() + b"\n"
         self.tag("stmt:default")
 
